@@ -643,23 +643,22 @@ func (c *Check) diffBaseProtocol(rule string) {
 		if f == nil {
 			continue
 		}
-		for _, b := range f.Blocks {
-			for _, ins := range b.Instrs {
-				call, ok := ins.(*ssa.Call)
-				if !ok || call.Call.StaticCallee() == nil || call.Call.StaticCallee().Name() != s.callee {
-					continue
-				}
-				if k, ok := constString(call.Call.Args[1]); ok && strings.HasPrefix(k, "pprof::") {
-					val := ""
-					if len(call.Call.Args) > 2 {
-						if v, ok := constString(call.Call.Args[2]); ok {
-							val = v
-						} else if vs := variadicValues(call.Call.Args[2]); len(vs) == 1 {
-							val, _ = constString(vs[0])
-						}
+		callee := s.callee
+		for _, es := range effectiveSites(f, func(ins ssa.Instruction) bool { return calleeNamed(ins, callee) }, 2) {
+			call, ok := es.actual.(*ssa.Call)
+			if !ok {
+				continue
+			}
+			if k, ok := constString(call.Call.Args[1]); ok && strings.HasPrefix(k, "pprof::") {
+				val := ""
+				if len(call.Call.Args) > 2 {
+					if v, ok := constString(call.Call.Args[2]); ok {
+						val = v
+					} else if vs := variadicValues(call.Call.Args[2]); len(vs) == 1 {
+						val, _ = constString(vs[0])
 					}
-					keys[s.what] = append(keys[s.what], k+"="+val)
 				}
+				keys[s.what] = append(keys[s.what], k+"="+val)
 			}
 		}
 	}
